@@ -110,6 +110,8 @@ pub fn val(cfg: &WxmlCfg) -> BoxedStrategy<Val> {
     prop_oneof![
         (10 - dw.min(9)) => static_text(cfg.rich_text).prop_map(Val::Static),
         dw => e.prop_map(Val::Bind),
+        // a value that is exactly one blank string literal (truthy, unlike the empty attribute it could be mistaken for)
+        1 => prop_oneof![Just(" "), Just("\u{3000}"), Just("\t"), Just("  ")].prop_map(|s: &str| Val::Bind(crate::model::expr::Expr::Str(s.to_string()))),
         (dw / 2).max(1) => proptest::collection::vec(piece, 2..4).prop_map(|ps| Val::Mixed(ps).normalise()),
     ]
     .boxed()
